@@ -169,6 +169,7 @@ def run(chk: Check):
         "the tokenizer agree on what opens a bracket. M3: each macro flag has one setter, is committed by a cut and is switched off "
         "by the consumer on all paths. M4: the builders pass the raw text, in order, to call_macro / enter_macro / the subprocess "
         "call. M5: the block capture swallows a balanced INDENT/DEDENT pair. Fidelity over all argument texts is not decided.")
+    chk.explanation += ' Also evaluated here: string tokens carry their full text and physical lines (C08 L1/L2), since macro text is assembled from token texts and lines.'
     chk.trusted = ["xpverif.pyflow CFG", "xpverif.absint shapes"]
     chk.assumptions = ["token text equals source text (C08)"]
     ix = Index()
